@@ -150,7 +150,11 @@ impl StepChecker {
                     let key = if foreign.is_some_and(|(t, dd)| (t, dd) != (*tag & 7, *dir)) { "integrity.crosstalk" } else { "integrity.prefix" };
                     self.viol(key, desc);
                 }
-                if d.eof && d.read.len() < d.written.len() && d.shutdown {
+                // When the application of side x has let go of its Multiplexor the connection is being torn
+                // down: what the OTHER side accepted but had not transmitted yet is legitimately lost. For
+                // that direction the reader must get everything that was TRANSMITTED (checked at the end).
+                let teardown_dir = cfg.drop_mux_when_writers_done.is_some_and(|x| w.mux[x].is_none() && cfg.streams.iter().any(|st| st.tag == *tag && u8::from(st.opener != 1 - x) == *dir));
+                if d.eof && d.read.len() < d.written.len() && d.shutdown && !teardown_dir {
                     // EOF reported before all data written before the shutdown was returned
                     let desc = format!("stream {tag} dir {dir}: reader saw end-of-stream after {} bytes but {} were accepted before the clean shutdown", d.read.len(), d.written.len());
                     self.viol("integrity.eof-early", desc);
@@ -301,6 +305,20 @@ impl StepChecker {
         let obs = w.obs.borrow();
         if or.integrity {
             for ((tag, dir), d) in &obs.dirs {
+                let teardown_dir = _cfg.drop_mux_when_writers_done.is_some_and(|x| w.mux[x].is_none() && _cfg.streams.iter().any(|st| st.tag == *tag && u8::from(st.opener != 1 - x) == *dir));
+                if teardown_dir {
+                    // written by the side that did NOT drop its Multiplexor: everything it transmitted before the
+                    // connection ended must be returned to the reader before end-of-stream
+                    let y = _cfg.drop_mux_when_writers_done.map_or(0, |x| 1 - x);
+                    if let Some(fid) = obs.flow_ids.get(&(*tag, y)) {
+                        let on_wire: Vec<u8> = self.mon.frames.iter().filter(|(s, f)| *s == y && f.id() == *fid).filter_map(|(_, f)| if let crate::codec::RFrame::Push { data, .. } = f { Some(data.clone()) } else { None }).flatten().collect();
+                        if d.eof && d.read != on_wire {
+                            let desc = format!("stream {tag} dir {dir}: the connection was closed by the reader's side; the peer had transmitted {:02x?} before it ended but the reader got {:02x?} before end-of-stream", on_wire, d.read);
+                            self.viol("integrity.transmitted-not-delivered", desc);
+                        }
+                    }
+                    continue;
+                }
                 if d.shutdown && d.eof && d.read != d.written {
                     let desc = format!("stream {tag} dir {dir}: writer shut down cleanly after {} bytes, reader reached end-of-stream with {} bytes", d.written.len(), d.read.len());
                     self.viol("integrity.final-equality", desc);
